@@ -36,6 +36,7 @@ CHECKS = {
             H("c04.VH_winbox_user", {"L": 42}, {"L": 48}, opts=C04_OPTS, covers=["match returned"]),
             H("c04.VH_rdp", {"L": 19}, {"L": 22}, opts=C04_OPTS, covers=["match returned"], weight=4),
             H("c04.VH_rdp_filter", {"L": 19}, {"L": 21}, opts=C04_OPTS, covers=["match returned"]),
+            H("c04.VH_rdp_deep", {"L": 58}, {"L": 64}, opts=C04_OPTS, covers=["match returned", "deep payload matched"], weight=2),
             H("c04.VH_rdp_token", {"L": 19}, {"L": 21}, opts=C04_OPTS, covers=["match returned"]),
             H("c04.VH_openvpn_tcp", {"L": 90}, {"L": 96}, opts=C04_OPTS, covers=["match returned"]),
             H("c04.VH_openvpn_udp", {"L": 88}, {"L": 96}, opts=C04_OPTS, covers=["match returned"]),
@@ -81,6 +82,8 @@ CHECKS["C18"] = {
         H("c18.VH_rdp_token", {}, {}, covers=["accepted", "rejected"]),
         H("c18.VH_rdp_negreq_fields", {}, {}, covers=["accepted"]),
         H("c18.VH_winbox_auth", {"L": 44}, {"params": {"L": 300}, "unwind": 320}, covers=["accepted", "rejected"], weight=3),
+        H("c18.VH_winbox_fields", {"UMIN": 1, "UMAX": 6}, {"UMIN": 1, "UMAX": 9}, covers=["accepted"], weight=2),
+        H("c18.VH_winbox_boundary", {"params": {}, "unwind": 600}, {"params": {}, "unwind": 600}, covers=["accepted"]),
     ],
     "level_text": "bounded model checking of every exported FromBytes/ToBytes pair over the real message sizes: for every byte string within max+2 bytes, acceptance implies a legal length and ToBytes(FromBytes(b)) == b (refuted with a fresh symbolic index, so no per-byte bound); serialise-then-parse for messages built from arbitrary field values",
     "level_note": "binary.Read/Write on fixed-layout values are engine intrinsics (type-directed encode/decode, validated natively per run by path replay); bytes.Buffer, byte-order helpers and the repository code are executed from SSA; crypto (HMAC/AES) is not involved in the codecs' framing",
@@ -97,7 +100,8 @@ CHECKS["C10"] = {
         H("c10.VH_random_choose", {"N": 3}, {"N": 4}, covers=["one selected", "none selected"], weight=2),
         H("c10.VH_round_robin", {"N": 3}, {"N": 4}, covers=["one selected", "none selected", "cycle of two or more"], weight=4),
         H("c10.VH_round_robin_wrap", {"N": 3}, {"N": 3}, covers=[], weight=3),
-        H("c10.VH_ip_hash", {"N": 3}, {"N": 4}, covers=["one selected", "none selected", "leaver"], weight=3, validate=False),
+        H("c10.VH_ip_hash", {"N": 3}, {"N": 4}, covers=["one selected", "none selected", "leaver", "pool with unavailable members"], weight=3, validate=False, native_replay=False),
+        H("c10r.VH_ip_hash", {"N": 3}, {"N": 4}, covers=["one selected", "none selected", "leaver", "pool with unavailable members"], weight=3),
     ],
     "level_text": "bounded model checking of every selection policy's real Select on pools of 0..N upstreams whose per-peer health/failure/connection state, limits, random draws, round-robin counter and hash values are symbolic; the oracle is a reference availability predicate written from the documentation (not the repository's available()), plus the per-policy contract",
     "level_note": "pool size bounded (quick 0..3/4, thorough up to 4..6); numConns/fails/max_connections in 0..2; one upstream may have two peers; math/rand draws are arbitrary values in their documented range; ip_hash's FNV hash is replaced by an arbitrary deterministic function (uninterpreted), which over-approximates the real hash; round_robin counter = base + 8 symbolic bits",
@@ -146,17 +150,17 @@ CHECKS["C01"] = {
         H("c01.VH_step_rec", {"READS": 2}, {"READS": 3}, covers=["recorder ran", "bytes buffered at handler time", "more than 4096 bytes buffered", "read to EOF"], weight=3),
         H("c01.VH_step_wrap", {"READS": 2}, {"READS": 3}, covers=["wrapping handler ran", "recorder ran", "more than 4096 bytes buffered"], weight=4),
         H("c01.VH_step_throttle", {"READS": 2}, {"READS": 3}, covers=["recorder ran", "more than 4096 bytes buffered"], weight=3),
-        H("c01.VH_step_proxyproto", {"params": {"READS": 1, "OFFSET0": 1, "HCHOICE": 1, "MAXB": 5000, "MAXD": 1000, "ROUNDS": 2}, "timeout_ms": 60000},
-          {"params": {"READS": 2, "OFFSET0": 1, "HCHOICE": 1, "MAXB": 6000, "MAXD": 1000, "ROUNDS": 2}, "timeout_ms": 120000},
-          covers=["recorder ran", "more than 4096 bytes buffered"], weight=5, validate=False),
+        H("c01.VH_step_proxyproto", {"params": {"READS": 1, "OFFSET0": 1, "MAXB": 5000, "MAXD": 1000, "ROUNDS": 2}, "timeout_ms": 60000},
+          {"params": {"READS": 2, "OFFSET0": 0, "MAXB": 9000, "MAXD": 1000, "ROUNDS": 2}, "timeout_ms": 120000},
+          covers=["recorder ran", "more than 4096 bytes buffered"], weight=5),
         H("c01.VH_step_tee", {"MAXB": 3000}, {"MAXB": 5000}, covers=["recorder ran", "bytes buffered at handler time", "read to EOF"], weight=8, validate=False),
         H("c01.VH_core", {"ROUNDS": 2, "READS": 2}, {"ROUNDS": 3, "READS": 2}, covers=["recorder ran", "buffer grew beyond the pooled capacity", "read to EOF"], weight=4),
         H("c01.VH_two_matchers", {"ROUNDS": 2}, {"ROUNDS": 3}, covers=["recorder ran"], weight=8),
         H("c01.VH_wrap", {"ROUNDS": 2}, {"ROUNDS": 3}, covers=["recorder ran", "wrapping handler ran"], weight=5),
     ],
     "level_text": "bounded model checking with the real constants (2048-byte prefetch chunk, 8192-byte limit, bufio's 4096): (1) one-step lemmas from an arbitrary Connection state satisfying the representation invariant - Read, prefetch, MatcherSet.Match(freeze/unfreeze) preserve the abstract stream buf[offset:]++unread; (2) every shipped wrapping handler (proxy_protocol with its real bufio.Reader, tee with its real io.Pipe and goroutine, throttle, a TLS-shaped drain-and-Wrap handler) started from an arbitrary post-matching state (up to 10239 buffered bytes, symbolic offset) followed by a recorder whose every read must continue the client's stream; (3) whole Compile runs over 2-3 prefetch rounds on streams up to 24 KiB",
-    "level_note": "the PROXY header parser is replaced by 'consume H bytes from the handler's bufio.Reader' (H in {16,107,536}); TLS is represented by a handler that reads through cx at least everything prefetched and then calls cx.Wrap (a conforming client cannot send its second flight before the server's first) - crypto/tls itself is not executed; tee runs in the engine's goroutine mode (cooperative schedule, no pre-emption); the echo handler's io.Copy loop is not covered (queries undecided within the time slice); whole-chain runs are limited to 2 (quick) / 3 (thorough) prefetch rounds",
-    "assumptions": ["proxyprotocol.Parse replaced by: discard H bytes from the bufio.Reader, succeed", "TLS-shaped handler: consumes at least all prefetched bytes before Wrap", "client = SymConn (arbitrary non-empty segments, then EOF)"],
+    "level_note": "the stream starts with one of three concrete valid PROXY headers (v2 LOCAL, v2 TCP4, v1 TCP4) and the library parser is replaced by 'consume exactly that header from the handler's bufio.Reader' - the native twin runs the real parser on the same bytes; TLS is represented by a handler that reads through cx at least everything prefetched and then calls cx.Wrap (a conforming client cannot send its second flight before the server's first) - crypto/tls itself is not executed; tee runs in the engine's goroutine mode (cooperative schedule, no pre-emption); the echo handler's io.Copy loop is not covered (queries undecided within the time slice); whole-chain runs are limited to 2 (quick) / 3 (thorough) prefetch rounds",
+    "assumptions": ["proxyprotocol.Parse replaced by: discard the (concrete, valid) header from the bufio.Reader, succeed", "TLS-shaped handler: consumes at least all prefetched bytes before Wrap", "client = SymConn (arbitrary non-empty segments, then EOF)"],
     "outside": ["echo handler", "crypto/tls record layer", "more than 3 prefetch rounds in whole-chain runs (the one-step lemmas cover any number)", "streams above 24 KiB"],
     "bounds": {"quick": "buffer <= 10239, offset symbolic, stream <= 24 KiB, 2 rounds, 2 reads per handler", "thorough": "3 rounds, 3 reads"},
 }
